@@ -19,8 +19,14 @@ def main():
             summ = summ[:230] + '…'
         tier = det.get('tier', 'quick')
         how = (f"detected ({det.get('seconds')} s)" if det.get('detected')
-               else 'MISSED') + ('' if tier == 'quick' else f' [{tier}]')
-        sigs = '; '.join(det.get('signatures', [])[:2]).replace('|', '/')
+               else 'missed') + ('' if tier == 'quick' else f' [{tier}]')
+        sig_list = det.get('signatures', [])
+        th = det.get('thorough')
+        if th and not det.get('detected'):
+            how = (f"quick: missed ({det.get('seconds')} s); thorough: "
+                   f"detected ({th.get('seconds')} s)")
+            sig_list = th.get('signatures', [])
+        sigs = '; '.join(sig_list[:2]).replace('|', '/')
         hist = (det.get('history') or m.get('history') or '').replace(
             '|', '/')
         rows.append(f"| `{name}` | {m.get('property')} | {summ} | {how} | "
